@@ -8,6 +8,9 @@ OneToOne.  A history is a list of commands on a register file of instances
 plus keyword items) / `unique` / `copy`, and every mutator (`__setitem__`,
 `__delitem__`, `update` with any materialised argument, `|=`, `setdefault`, `pop`,
 `popitem`, `clear`) applied through the forward object or through `.inv`.
+The theorems are about the SET of pairs each side holds; the dict iteration order is
+modelled (it decides `popitem` and which key survives `OneToOne({k1: v, k2: v})`) but
+no property theorem depends on it.
 -/
 namespace C17
 variable {α : Type} [DecidableEq α]
@@ -110,6 +113,17 @@ theorem oto_popitem_spec (s : OTO α) (w : s.WF) (a : α) :
     (s.fwd ≠ [] → ∃ k v, s.popitem.2 = .pair k v ∧ lookup k s.fwd = some v ∧
       lookup a s.popitem.1.fwd = if a = k then none else lookup a s.fwd) :=
   OTO.popitem_spec w a
+
+/-- the correspondence's order-agnostic `popitem` (the driver is told which pair the implementation
+    returned): a pair the object holds is removed exactly; anything else falls back to LIFO -/
+theorem oto_popitem_any_spec (s : OTO α) (k v a : α) :
+    (lookup k s.fwd = some v → (s.popitemAs k v).2 = .pair k v ∧
+      lookup a (s.popitemAs k v).1.fwd = if a = k then none else lookup a s.fwd) ∧
+    (lookup k s.fwd ≠ some v → s.popitemAs k v = s.popitem) := by
+  unfold OTO.popitemAs
+  constructor
+  · intro hk; simp [hk, lookup_erase]
+  · intro hk; simp [hk]
 
 /-- `x.setdefault(k, d)`: an existing key is returned untouched, a missing one is `x[k] = d` -/
 theorem oto_setdefault_spec (s : OTO α) (w : s.WF) (k d : α) :
